@@ -1,6 +1,6 @@
 """Rules on the move chain (C13 L1-L4, C14 R1-R3, C17 W1/W2/W4)."""
 from .fx import FxBuilder, tree_paths, walk_tree, unstamp, path_value
-from .expr import show
+from .expr import show, walk
 from .apirules import API_STOP, MAKE_U, UNMAKE_U, norm_val, _strip_payload, try_test
 
 CHAIN = "owlchess::chain::BaseMoveChain"
@@ -457,7 +457,7 @@ def auto_outcome_rule(ctx, facts, rid):
             continue
         ok = (len(stores) == 1) == should
         if ok and should:
-            v = unstamp(stores[0][2])
+            v = unstamp(path_value(stores[0][2], choices))
             ok = v[0] == "agg" and v[2] == "Some" and "calc_outcome(self)" in show(v)
         r.check(ok, key, "set_auto_outcome: outcome stored=%s on a path where calculated-outcome-present=%s and passes(filter)=%s"
                 % (len(stores) == 1, some, passes), site=ctx.site(fn), what=key)
@@ -627,16 +627,48 @@ def walker_step_rule(ctx, facts, rid):
                 continue
             if ret[0] == "agg" and ret[2] == "Some":
                 tup = ret[3][0]
-                idx = show(unstamp(calls[0][3][1])) if len(calls) == 1 else None
-                mv = show(tup[3][1]) if tup[0] == "agg" and len(tup[3]) == 2 else ""
-                brd = show(tup[3][0]) if tup[0] == "agg" and len(tup[3]) == 2 else ""
-                delta = "AddWithOverflow 1" if meth == "next" else "SubWithOverflow 1"
-                ok_some = (len(calls) == 1 and len(stores) == 1 and idx == want_idx and mv == "**self.stack[%s].#0" % want_idx
-                           and brd == "&*self.board" and delta in show(stores[0][2])
-                           and events.index(stores[0]) < events.index(calls[0]))
-                why = "set_board_pos(%s), returns (%s, %s)" % (idx, brd, mv)
-        r.check(ok_some and ok_none, "Walker::" + meth, "Walker::%s: %s; expected set_board_pos(%s) and the move stack[%s] with &self.board, "
-                "None path untouched" % (meth, why, want_idx, want_idx), site=ctx.site(fn), what="Walker::%s index discipline" % meth)
+                if len(calls) != 1 or len(stores) != 1 or not (tup[0] == "agg" and len(tup[3]) == 2):
+                    why = "%d set_board_pos calls, %d stores to pos" % (len(calls), len(stores))
+                    continue
+                st = stores[0]
+                ver0 = st[4] if len(st) > 4 else 0
+
+                def lin(e):
+                    """(coefficient of the old pos, constant) of an index expression; None if not such a form."""
+                    if e[0] == "const" and isinstance(e[1], int):
+                        return (0, e[1])
+                    if e[0] == "ld" and show(unstamp(e[2])) == "*self.pos":
+                        return (1, 0) if e[1] <= ver0 else lin(path_value(st[2], choices))
+                    if e[0] == "field" and e[2] == "#0" and e[1][0] == "bin" and e[1][1] in ("AddWithOverflow", "SubWithOverflow"):
+                        a, b = lin(e[1][2]), lin(e[1][3])
+                        if a is None or b is None:
+                            return None
+                        sg = 1 if e[1][1].startswith("Add") else -1
+                        return (a[0] + sg * b[0], a[1] + sg * b[1])
+                    if e[0] == "bin" and e[1] in ("Add", "Sub"):
+                        a, b = lin(e[2]), lin(e[3])
+                        if a is None or b is None:
+                            return None
+                        sg = 1 if e[1] == "Add" else -1
+                        return (a[0] + sg * b[0], a[1] + sg * b[1])
+                    return None
+                want = (1, 0) if meth == "next" else (1, -1)          # next: the move at the old pos; prev: at old pos - 1
+                newpos = lin(path_value(st[2], choices))
+                idx_e = path_value(calls[0][3][1], choices)
+                idx = lin(idx_e)
+                ret_st = path_value(events[-1][1], choices)         # stamped: loads keep their memory version
+                mi = None
+                for x in walk(ret_st):
+                    if x[0] in ("index", "tbl") and "self.stack" in show(unstamp(x[1])):
+                        mi = lin(x[2])
+                brd = show(unstamp(tup[3][0]))
+                ok_some = (newpos == ((1, 1) if meth == "next" else (1, -1)) and idx == want and mi == want and brd == "&*self.board"
+                           and events.index(st) < events.index(calls[0]))
+                why = "pos := old%+d, set_board_pos(old%+d), returns (%s, stack[old%+d])" % (
+                    (newpos or (0, 99))[1], (idx or (0, 99))[1], brd, (mi or (0, 99))[1])
+        r.check(ok_some and ok_none, "Walker::" + meth, "Walker::%s: %s; expected the board moved to and the move taken from index %s, "
+                "with &self.board, None path untouched" % (meth, why, "old pos" if meth == "next" else "old pos - 1"), site=ctx.site(fn),
+                what="Walker::%s index discipline" % meth)
     for meth, want in (("start", "0"), ("end", "len(&**self.stack)")):
         lst = facts.instances(WALKER + meth)
         if not lst:
@@ -727,3 +759,149 @@ def status_rule(ctx, facts, rid):
         callees = [(t["f"].get("inst") or "") for _bi, t in fn.body.calls()]
         ok = any(c.endswith("::new") and "BaseMoveChain" in c for c in callees) and any(c.endswith("::push_uci_list") for c in callees)
         r.check(ok, "from_uci_list", "from_uci_list is not new(b) + push_uci_list", site=ctx.site(fn), what="from_uci_list = new + push_uci_list")
+
+
+# ---------------------------------------------------------------------------------------------- the styled move list
+
+def _template(facts, e):
+    """Text of a format_args! template (compact encoding: 0xC0 = next argument, n < 0x80 = n literal bytes, 0 = end)."""
+    while isinstance(e, tuple) and e and e[0] == "ref":
+        e = e[1]
+    if not (isinstance(e, tuple) and e and e[0] == "alloc"):
+        return None
+    a = facts.allocs.get(str(e[1])) or facts.allocs.get(e[1])
+    if not a or a.get("relocs"):
+        return None
+    b = bytes.fromhex(a["bytes"])
+    out = ""
+    i = 0
+    while i < len(b):
+        x = b[i]
+        if x == 0:
+            return out
+        if x == 0xC0:
+            out += "{}"
+            i += 1
+        elif x < 0x80:
+            out += b[i + 1:i + 1 + x].decode("latin-1")
+            i += 1 + x
+        else:
+            return None
+    return out
+
+
+def styled_list_rule(ctx, facts, rid):
+    r = ctx.rule(rid, "StyledList::fmt prints, in walker order, every move as mv.styled(board before it, requested style); a number before the "
+                      "first move ('N. ' for White, 'N... ' for Black) and before every later White move (board's number - first number + "
+                      "start), none when omitted; the status token last, from the stored outcome")
+    fns = [f for k, f in facts.fns.items() if "StyledList" in k and "core::fmt::Display" in k and k.endswith("::fmt")]
+    if not fns:
+        r.anchor_missing("<StyledList as Display>::fmt")
+        return
+    NEXT = "owlchess::chain::Walker::<'a>::next"
+    STYLED = "owlchess::moves::base::Move::styled"
+    for fn in fns:
+        stop = {NEXT, STYLED, "owlchess::chain::BaseMoveChain::<R>::walk"} | {x.def_path for x in facts.fns.values() if "GameStatus" in x.def_path}
+        fb = FxBuilder(facts, stop=stop)
+        tree = fb.tree(fn)
+        n_paths = 0
+        kinds_seen = set()
+        for events, choices in tree_paths(tree):
+            last = events[-1]
+            if last[0] not in ("ret", "backedge"):
+                continue
+            n_paths += 1
+            pv = lambda e: unstamp(path_value(e, choices))
+            # split into segments: [before first next] [first move] [loop iteration]...
+            segs = [[]]
+            for e in events:
+                if e[0] == "call" and e[2] == NEXT:
+                    segs.append([])
+                segs[-1].append(e)
+            nums_on = None
+            for e in events:
+                if e[0] == "branch" and "nums" in show(unstamp(e[1])) and show(unstamp(e[1])).startswith("discr("):
+                    nums_on = e[2] != (0,) and e[2] != "else" or (e[2] == "else")
+                    nums_on = (0 not in e[2]) if e[2] != "else" else True
+            for si, seg in enumerate(segs):
+                writes = []
+                for j, e in enumerate(seg):
+                    if e[0] == "call" and (e[2] or "").startswith("core::fmt::Arguments") and "::new" in (e[2] or e[1]):
+                        tmpl = _template(facts, pv(e[3][0])) if e[3] else None
+                        argv = pv(e[3][1]) if len(e[3]) > 1 else None
+                        writes.append((tmpl, argv))
+                # white-to-move test inside this segment
+                side_white = None
+                for e in seg:
+                    if e[0] == "branch":
+                        t = show(pv(e[1]))
+                        if t.endswith(".#0.r.side)") or t.endswith(".#0.r.side"):
+                            if t.startswith("(0 Eq "):
+                                side_white = (e[2] == "else") or (e[2] != "else" and 0 not in e[2])
+                            elif t.startswith("discr("):
+                                side_white = (e[2] != "else" and 0 in e[2])
+                texts = []
+                for tmpl, argv in writes:
+                    a = show(argv) if argv is not None else ""
+                    if "styled(" in a and "self.style" in a and ".#1" in a and ".#0" in a:
+                        kind = "move"
+                    elif "GameStatus" in a and "outcome" in a:
+                        kind = "status"
+                    elif "move_number" in a or "start_num" in a or "self.nums" in a:
+                        kind = "number"
+                    else:
+                        kind = "other:" + a[:80]
+                    texts.append((kind, tmpl))
+                    kinds_seen.add(kind.split(":")[0])
+                key = "%s/segment%d" % ("first" if si == 1 else ("loop" if si >= 2 else "head"), si)
+                tag = "fmt/" + key
+                if si == 0:
+                    # before the first next(): only the empty-list status
+                    ok = all(k == "status" and t in ("{}",) for k, t in texts)
+                    r.check(ok, tag, "StyledList::fmt writes %s before walking the list" % (texts,), site=ctx.site(fn), what="empty list: status only")
+                    continue
+                moves = [x for x in texts if x[0] == "move"]
+                numbers = [x for x in texts if x[0] == "number"]
+                others = [x for x in texts if x[0].startswith("other")]
+                status = [x for x in texts if x[0] == "status"]
+                if others:
+                    r.fail(tag + "/foreign", "StyledList::fmt prints something that is neither a walker move in the requested style, a move number "
+                                              "nor the status: %s" % (others[0][0],), site=ctx.site(fn))
+                    continue
+                item_present = any(e[0] == "branch" and show(pv(e[1])).startswith("discr(next(") and e[2] != "else" and 1 in e[2] for e in seg) or si == 1
+                if not item_present:
+                    ok = not moves and not numbers and all(t == " {}" for _k, t in status)
+                    r.check(ok, tag + "/end", "after the last move StyledList::fmt writes %s" % (texts,), site=ctx.site(fn), what="end: status ' {}' only")
+                    continue
+                if len(moves) != 1:
+                    if seg and seg[-1][0] == "ret" and not moves:
+                        continue        # write error propagated
+                    r.fail(tag + "/moves", "one walker step prints %d moves" % len(moves), site=ctx.site(fn))
+                    continue
+                if si == 1:
+                    want_t = "{}"
+                    ok = moves[0][1] == want_t
+                    if numbers:
+                        ok = ok and len(numbers) == 1 and numbers[0][1] == ("{}. " if side_white else "{}... ") and texts.index(numbers[0]) < texts.index(moves[0])
+                    r.check(ok, tag + "/" + ("white" if side_white else "black" if side_white is not None else "nonum"),
+                            "first move is written as %s (side to move white=%s)" % (texts, side_white), site=ctx.site(fn),
+                            what="first move: %s" % ([t for _k, t in texts],))
+                else:
+                    ok = moves[0][1] == " {}"
+                    if side_white and nums_on is not False and numbers:
+                        ok = ok and len(numbers) == 1 and numbers[0][1] == " {}." and texts.index(numbers[0]) < texts.index(moves[0])
+                    if side_white is False:
+                        ok = ok and not numbers
+                    if side_white and not numbers:
+                        # numbers omitted on this path (nums == Omit)
+                        ok = ok and any(e[0] == "branch" and "start_num" in show(unstamp(e[1])) for e in seg + segs[1])
+                    r.check(ok, tag + "/" + ("white" if side_white else "black" if side_white is not None else "nonum"),
+                            "a later move is written as %s (side to move white=%s)" % (texts, side_white), site=ctx.site(fn),
+                            what="later move: %s" % ([t for _k, t in texts],))
+        r.floor(n_paths, 6, "paths of StyledList::fmt")
+        r.check({"move", "number", "status"} <= kinds_seen, "fmt/kinds", "StyledList::fmt does not print all of move, number, status: %s" % sorted(kinds_seen),
+                site=ctx.site(fn), what="prints moves, numbers and the status")
+        # the number expression of later moves
+        txt = repr(tree)
+        r.check("SubWithOverflow" in txt and "move_number" in txt, "fmt/number-expr", "later move numbers are not board.move_number - first + start",
+                site=ctx.site(fn), what="number = board's move number - first board's number + start")
